@@ -45,6 +45,7 @@ def run(ctx):
     lib_kind.py_windows_parity(ctx, py, [("trees", "TreeSequence.genetic_relatedness_matrix")])
     lib_py.ll_positional(ctx, py, P, only=ps)
     lib_module.name_agreement(ctx, P, classes=("TreeSequence", "LdCalculator"), floor=60)
+    lib_module.module_every_path(ctx, P, classes=("TreeSequence", "LdCalculator"), floor=20)
     lib_py.facade_names(ctx, py, P, classes=(("trees", "TreeSequence"),), floor=90,
                         exempt={"TreeSequence.get_population": "deprecated alias for the population *of a node*; unrelated to the "
                                                                "low-level get_population(id) row getter"})
